@@ -75,24 +75,25 @@ class SocketUxdNb(object):
 
         #bind to Host Address Port
         try:
-            self.ss.bind(self.ha)
-        except socket.error as ex:
-            if not ex.errno == errno.ENOENT: # No such file or directory
-                console.terse("socket.error = {0}\n".format(ex))
-                return False
-            try:
-                os.makedirs(os.path.dirname(self.ha))
-            except OSError as ex:
-                console.terse("OSError = {0}\n".format(ex))
-                return False
             try:
                 self.ss.bind(self.ha)
             except socket.error as ex:
-                console.terse("socket.error = {0}\n".format(ex))
-                return False
-
-        if oldumask is not None: # restore old umask
-            os.umask(oldumask)
+                if not ex.errno == errno.ENOENT: # No such file or directory
+                    console.terse("socket.error = {0}\n".format(ex))
+                    return False
+                try:
+                    os.makedirs(os.path.dirname(self.ha))
+                except OSError as ex:
+                    console.terse("OSError = {0}\n".format(ex))
+                    return False
+                try:
+                    self.ss.bind(self.ha)
+                except socket.error as ex:
+                    console.terse("socket.error = {0}\n".format(ex))
+                    return False
+        finally:
+            if oldumask is not None: # restore old umask also when bind failed
+                os.umask(oldumask)
 
         self.ha = self.ss.getsockname() #get resolved ha after bind
         self.opened = True
